@@ -53,7 +53,8 @@ def gen_case(rng, idx, tier):
         spec['expected'] = c['mult'] * float(np.sum(AT.value(c['atom'], u, c['params'])))
     else:
         cones = ['X', 'X', 'LQX'][int(rng.integers(3))]
-        spec = D.gen(rng, tier, cones=cones, ints=False, atom=atom if rng.random() < 0.6 else None)
+        spec = D.gen(rng, tier, cones=cones, ints=bool(rng.random() < 0.35),
+                     atom=atom if rng.random() < 0.6 else None)
         # keep every exponential argument in range
         for c in list(spec['cvx']):
             M = np.array(c['M'], float)
@@ -72,6 +73,8 @@ def gen_case(rng, idx, tier):
             spec['lin'].append({'A': M.tolist(), 'sense': 'ge', 'b': (lo - v).tolist()})
     spec['degrees'] = sorted({4, int(rng.integers(4, 9)), int(rng.integers(5, 9))})
     spec['mode'] = 'pinned' if pinned else 'free'
+    if any(b['vtype'] != 'C' for b in spec['blocks']):
+        spec['mode'] = 'mi'       # integer variables: structure and integrality only
     return spec
 
 
@@ -108,35 +111,38 @@ def exponents(f, x):
     return np.array(out)
 
 
-def run_case(spec, ctx):
-    try:
-        B = D.build(spec)
-        m = B.model
-        f = m.do_math()
-    except Exception as e:
-        ctx.count('rsome_raises_build:' + type(e).__name__)
-        return {'status': 'skip', 'reason': 'rsome raised at build: %s' % type(e).__name__}
-    if not getattr(f, 'xmat', None):
-        return {'status': 'skip', 'reason': 'no exponential cone in the program'}
-    feats = {'front': spec['front'], 'atoms': sorted({c['atom'] for c in spec['cvx']}),
-             'mode': spec['mode'], 'degrees': spec['degrees'], 'ncones': len(f.xmat),
-             'has_soc': bool(f.qmat)}
-    detail = []
-    fp0 = C.fingerprint(f)
-    f_copy = copy.deepcopy(f)
-    C.solve(m, 'eco')
-    if not C.optimal(m) or 'Optimal' not in str(m.solution.status):
-        return {'status': 'skip', 'reason': 'exact solve not optimal', 'features': feats}
-    exact = float(m.get())
-    ex_x = np.asarray(m.solution.x, float)
-    if spec['mode'] == 'pinned':
-        if abs(exact - spec['expected']) > 1e-4 * (1 + abs(exact)):
-            return {'status': 'skip', 'reason': 'exact solve disagrees with closed form (C07)'}
-        exact_solver = exact
-        exact = float(spec['expected'])     # the closed form is the more accurate reference
-    ex_exp = exponents(f, ex_x)
-    in_range = bool(np.all(np.abs(ex_exp) <= 4.0))
-    # ---- structure of to_socp
+def run_mi(spec, ctx, m, f, fp0, f_copy, feats, detail):
+    """Programs with integer variables: what to_socp hands to the solver must keep the variable
+    types, and the point soc_solve returns must be integral in them (no exact mixed-integer
+    exponential-cone reference is available, so the value itself is not judged)."""
+    n0, m0 = structure(f, spec, fp0, f_copy, ctx, detail)
+    ints = np.where(np.asarray(f.vtype) != 'C')[0]
+    solved = False
+    if not detail:
+        try:
+            with warnings.catch_warnings():
+                warnings.simplefilter('ignore')
+                m.soc_solve(C.solver('grb'), degree=4, display=False,
+                            params={'TimeLimit': 30, 'Threads': 1})
+            if C.optimal(m):
+                solved = True
+                ctx.count('mi_soc_solves')
+                sx = np.asarray(m.solution.x, float)
+                frac = np.abs(sx[ints] - np.round(sx[ints]))
+                if len(ints) and np.max(frac) > 1e-5:
+                    detail.append({'what': 'soc_solve returns fractional values for integer '
+                                   'variables', 'values': sx[ints].tolist()})
+        except Exception as e:
+            ctx.count('soc_solve_raises:grb:' + type(e).__name__)
+    sig = '|'.join('%s=%s' % (k_, feats[k_]) for k_ in sorted(feats))
+    if detail:
+        return {'status': 'violation', 'mechanism': detail[0]['what'][:60], 'detail': detail[:3],
+                'features': feats, 'sig': sig, 'nontrivial': True}
+    return {'status': 'held', 'features': feats, 'sig': sig, 'nontrivial': bool(len(ints)),
+            'observed': {'integer_variables': int(len(ints)), 'soc_solved': solved}}
+
+
+def structure(f, spec, fp0, f_copy, ctx, detail):
     n0 = f.linear.shape[1]
     m0 = f.linear.shape[0]
     for d in spec['degrees']:
@@ -177,6 +183,40 @@ def run_case(spec, ctx):
             detail.append({'what': 'to_socp does not carry the original program over unchanged',
                            'fields': bad, 'degree': d})
             break
+    return n0, m0
+
+
+def run_case(spec, ctx):
+    try:
+        B = D.build(spec)
+        m = B.model
+        f = m.do_math()
+    except Exception as e:
+        ctx.count('rsome_raises_build:' + type(e).__name__)
+        return {'status': 'skip', 'reason': 'rsome raised at build: %s' % type(e).__name__}
+    if not getattr(f, 'xmat', None):
+        return {'status': 'skip', 'reason': 'no exponential cone in the program'}
+    feats = {'front': spec['front'], 'atoms': sorted({c['atom'] for c in spec['cvx']}),
+             'mode': spec['mode'], 'degrees': spec['degrees'], 'ncones': len(f.xmat),
+             'has_soc': bool(f.qmat)}
+    detail = []
+    fp0 = C.fingerprint(f)
+    f_copy = copy.deepcopy(f)
+    if spec['mode'] == 'mi':
+        return run_mi(spec, ctx, m, f, fp0, f_copy, feats, detail)
+    C.solve(m, 'eco')
+    if not C.optimal(m) or 'Optimal' not in str(m.solution.status):
+        return {'status': 'skip', 'reason': 'exact solve not optimal', 'features': feats}
+    exact = float(m.get())
+    ex_x = np.asarray(m.solution.x, float)
+    if spec['mode'] == 'pinned':
+        if abs(exact - spec['expected']) > 1e-4 * (1 + abs(exact)):
+            return {'status': 'skip', 'reason': 'exact solve disagrees with closed form (C07)'}
+        exact_solver = exact
+        exact = float(spec['expected'])     # the closed form is the more accurate reference
+    ex_exp = exponents(f, ex_x)
+    in_range = bool(np.all(np.abs(ex_exp) <= 4.0))
+    n0, m0 = structure(f, spec, fp0, f_copy, ctx, detail)
     # ---- accuracy
     errs = {}
     judged_acc = 0
